@@ -63,7 +63,7 @@ def poly_case(rng, tier):
     terms = [(rng.randint(-3, 3), [rng.randint(0, 3) for _ in range(N)]) for _ in range(rng.randint(1, 4))]
     return {'op': 'poly', 'N': N, 'terms': terms, 'x': [rng.randint(-3, 3) for _ in range(N)],
             'v': [rng.choice([rng.randint(-2, 2), rng.randint(-8, 8) / 4.0]) for _ in range(N)],
-            'xkind': rng.choice(['float', 'int-array', 'int-list']),
+            'xkind': rng.choice(['float', 'int-array', 'int-list']), 'clobber': rng.random() < 0.3,
             'd': rng.randint(1, 4 if tier == 'quick' else 5)}     # d >= 4: multi-indices with two entries >= 2
 
 
@@ -153,6 +153,13 @@ def poly_fails(case):
     unit = lambda i: tuple(1 if j == i else 0 for j in range(N))
     g = np.array([float(exact_partial(terms, xs, unit(i))) for i in range(N)])
     H = np.array([[float(exact_partial(terms, xs, tuple(a + b for a, b in zip(unit(i), unit(j))))) for j in range(N)] for i in range(N)])
+    if case.get('clobber'):
+        # a caller obtained the interpolation data for this (N, d) from the public helper earlier and overwrote ITS arrays: the
+        # drivers must not be affected
+        import algopy.exact_interpolation as ei_
+        G_, r_ = ei_.generate_Gamma_and_rays(N, d)
+        G_[...] = 7.0
+        r_[...] = 0
     try:
         J = UTPM.extract_jacobian(f(UTPM.init_jacobian(x)))
         Jv = UTPM.extract_jac_vec(f(UTPM.init_jac_vec(x, v)))
